@@ -74,7 +74,8 @@ def gen_exact(chk, H, B, E, table):
                     jobs.append(('cut2', byte_frags(s, [c1, c2]) + [b''], 1000 if (c1 + c2) % 2 else 3, 'stderr', False))
     # A3: capture_maxbytes sweep, including single reads larger than the bound
     for klen in range(0, 13):
-        data = bytes(65 + (i % 26) for i in range(klen))
+        # letters with a '%' every fifth byte ('%D', '%I' ...: nothing may be formatted on the way to a log or to syslog)
+        data = bytes((37 if i % 5 == 2 else 65 + (i % 26)) for i in range(klen))
         for size in sorted(set([1, 2, 3, 5, max(1, klen)])):
             pieces = [data[i:i + size] for i in range(0, klen, size)]
             for cm in CAPS + [-1]:
